@@ -367,6 +367,30 @@ fn rich(name: &str) -> Response {
         .add_message(DistributionMsg::SetWithdrawAddress { address: "w".into() })
         .add_message(GovMsg::Vote { proposal_id: 3, option: VoteOption::No })
         .add_message(CosmosMsg::Any(AnyMsg { type_url: "/t".into(), value: Binary::from(vec![1u8, 2]) }))
+        .add_messages(every_other_variant())
+}
+
+/// One message of every remaining variant of every message enum (a lifted response must carry each of them as it was).
+#[allow(deprecated)]
+fn every_other_variant() -> Vec<CosmosMsg> {
+    use cosmwasm_std::{coin, Decimal, IbcTimeout, WeightedVoteOption};
+    vec![
+        BankMsg::Burn { amount: vec![coin(2, "ub")] }.into(),
+        WasmMsg::Instantiate { admin: Some("adm".into()), code_id: 7, msg: Binary::from(b"{}".to_vec()), funds: vec![coin(1, "ua")], label: "l".into() }.into(),
+        WasmMsg::Instantiate2 { admin: None, code_id: 8, label: "l2".into(), msg: Binary::from(b"{}".to_vec()), funds: vec![], salt: Binary::from(vec![9u8; 3]) }.into(),
+        WasmMsg::Migrate { contract_addr: "c".into(), new_code_id: 9, msg: Binary::from(b"{}".to_vec()) }.into(),
+        WasmMsg::UpdateAdmin { contract_addr: "c".into(), admin: "a2".into() }.into(),
+        WasmMsg::ClearAdmin { contract_addr: "c".into() }.into(),
+        StakingMsg::Undelegate { validator: "v".into(), amount: coin(4, "ua") }.into(),
+        StakingMsg::Redelegate { src_validator: "v".into(), dst_validator: "v2".into(), amount: coin(3, "ua") }.into(),
+        DistributionMsg::WithdrawDelegatorReward { validator: "v".into() }.into(),
+        DistributionMsg::FundCommunityPool { amount: vec![coin(1, "ua")] }.into(),
+        CosmosMsg::Stargate { type_url: "/legacy".into(), value: Binary::from(vec![7u8, 7]) },
+        IbcMsg::Transfer { channel_id: "channel-1".into(), to_address: "remote".into(), amount: coin(5, "ua"), timeout: IbcTimeout::with_timestamp(Timestamp::from_seconds(99)), memo: Some("m".into()) }.into(),
+        IbcMsg::SendPacket { channel_id: "channel-2".into(), data: Binary::from(vec![1u8]), timeout: IbcTimeout::with_timestamp(Timestamp::from_seconds(100)) }.into(),
+        IbcMsg::CloseChannel { channel_id: "channel-3".into() }.into(),
+        GovMsg::VoteWeighted { proposal_id: 4, options: vec![WeightedVoteOption { option: VoteOption::Yes, weight: Decimal::percent(60) }, WeightedVoteOption { option: VoteOption::Abstain, weight: Decimal::percent(40) }] }.into(),
+    ]
 }
 
 fn w_execute(_d: DepsMut, _e: Env, _i: MessageInfo, _m: Empty) -> StdResult<Response> {
